@@ -293,7 +293,7 @@ Definition step_r (c : lbq_cfg) (t : tid) (l : lbq_loc) : lbq_result :=
     end
   | RRet =>
     match o with
-    | OLen => fin (runlock (add_hist c (HLin t o (RLen (qlen c))))) t (RLen (qlen c))
+    | OLen => fin (add_hist (runlock c) (HLin t o (RLen (qlen c)))) t (RLen (qlen c))
     | _ => fin (runlock c) t (l_res l)
     end
   | _ => None
